@@ -62,16 +62,23 @@ def tree_hash(repo):
 
 
 def _prune_cache(keep):
+    """Drop cached facts of other working-tree contents: only entries unused for 40 minutes, and never the 3 most
+    recent (concurrent checks against scratch copies share this cache)."""
     if not os.path.isdir(CACHE):
         return
+    now = time.time()
     ents = []
     for d in os.listdir(CACHE):
         p = os.path.join(CACHE, d)
         if os.path.isdir(p) and d != keep:
-            ents.append((os.path.getmtime(p), p))
+            try:
+                ents.append((os.path.getmtime(p), p))
+            except OSError:
+                pass
     ents.sort(reverse=True)
-    for _, p in ents[2:]:
-        subprocess.call(['rm', '-rf', p])
+    for mt, p in ents[3:]:
+        if now - mt > 2400:
+            subprocess.call(['rm', '-rf', p])
 
 
 _FACTS = {}
@@ -248,7 +255,8 @@ def run_property(prop, tier, spec, replay=None):
                 continue
             rs = r if isinstance(r, list) else [r]
             for x in rs:
-                x.check_floors()
+                if not x.violations:
+                    x.check_floors()        # lost anchors / instance counts: broken, unless real violations are reported anyway
                 results.append(x)
     except Broken as e:
         print('BROKEN property=%s: %s' % (prop, e), file=sys.stderr)
